@@ -134,6 +134,27 @@ def draw_cases(seed, n, **kw):
     return out
 
 
+def draw_strategy(seed, n, strategy):
+    """n values of an arbitrary strategy outside of a @given test"""
+    from hypothesis import HealthCheck
+    from hypothesis import Phase
+    from hypothesis import given
+    from hypothesis import seed as hseed
+    from hypothesis import settings
+
+    out = []
+
+    @hseed(seed)
+    @settings(max_examples=n, database=None, deadline=None, phases=[Phase.generate],
+              suppress_health_check=list(HealthCheck))
+    @given(strategy)
+    def collect(x):
+        out.append(x)
+
+    collect()
+    return out
+
+
 def enumerate_schedules(prog, var, comp, refres, budget=5000, collab=None):
     """depth-first re-execution over ALL index tapes of one program: the choice log of a run tells how many
     options every choice point had; the last position with an untried option is incremented and the suffix
